@@ -458,23 +458,24 @@ def importMedia (st : St) (errPos : Pos) : List Tok → St × Bool × List Tok
     | .leaf .semi _ => (st, false, ts)
     | .leaf k pos => importMedia (st.tok (.leaf k) pos) errPos ts
 
+/-- `expect_url_or_string`: a string, an unquoted url, or `url("…")` -/
+def importPath : Tok → Option String
+  | .leaf (.str s) _ => some s
+  | .leaf (.url s) _ => some s
+  | .block .fn name body _ =>
+    if lower name = "url" then
+      (match dropWs body with
+       | .leaf (.str s) _ :: _ => some s
+       | _ => none)
+    else none
+  | _ => none
+
 /-- the `@import` branch of `parse_at_rule` (import sign configured); `ts` follows the keyword -/
 def importRule (st : St) (sign : String) (atStart : Bool) (startPos : Pos) (ts : List Tok) : St × List Tok :=
   let st := if atStart then st else st.warn .illegalImportPosition startPos
   match dropWs ts with
   | t :: r =>
-    -- `expect_url_or_string`: a string, an unquoted url, or `url("…")`
-    let path? := match t with
-      | .leaf (.str s) _ => some s
-      | .leaf (.url s) _ => some s
-      | .block .fn name body _ =>
-        if lower name = "url" then
-          (match dropWs body with
-           | .leaf (.str s) _ :: _ => some s
-           | _ => none)
-        else none
-      | _ => none
-    match path? with
+    match importPath t with
     | none => (st, skipRule ts)
     | some path =>
       let c := importConds st [] r
